@@ -226,7 +226,7 @@ def run_radix(N):
 
 def worker(t):
     prog = H.get_program()
-    S.BITS_MODE[:] = ['uf', 128]
+    S.BITS_MODE[:] = ['ladder', 192]        # exact bit-length facts (the pinned code of this property never asks for bits() of a symbolic integer; rewrites might)
     k = t['kind']
     run = run_chars(t['N'], t['first']) if k == 'chars' else (run_structured(t['shape']) if k == 'structured' else (run_utf8(t['N'], t['at'], t['width']) if k == 'utf8' else run_radix(t['N'])))
     return H.explore_task(prog, run, task=t, loop_bound=4000, timeout_ms=60000, deadline_s=1200, max_paths=400000)
